@@ -51,10 +51,7 @@ theorem readField_lf (f rest dst : Bytes) (hf : Clean f) (hd : CR ∉ dst) :
     readField (f ++ LF :: rest) dst = (dst ++ f, f.length + 1, true, rest) := by
   unfold readField
   simp only [takeWhile_clean f LF rest ⟨hf.1, hf.2.1⟩ (Or.inr rfl), List.drop_left]
-  have : (dst ++ f).getLast? ≠ some CR := getLast_ne_cr _ (by
-    intro h; rcases List.mem_append.mp h with h | h
-    · exact hd h
-    · exact hf.2.2 h)
+  have : f.getLast? ≠ some CR := getLast_ne_cr _ hf.2.2
   simp only [if_true, if_neg this]
 
 theorem readRequired_step (k : Nat) (src dst : Bytes) (ends : List Nat) (len : Nat) (dst' : Bytes)
